@@ -82,6 +82,10 @@ type Obs struct {
 	Elems   []Elem                 `json:"elems"`
 	Locals  map[string]interface{} `json:"locals"`
 	State   map[string]interface{} `json:"state"`
+	// Stale lists reads of archetype-local variables that did not return the value established by the
+	// committed writes so far (e.g. an aborted attempt's write that was not rolled back). Always empty on a
+	// correct runtime; a check should treat a non-empty list as a broken tie.
+	Stale []string `json:"stale,omitempty"`
 }
 
 type gateCmd struct {
@@ -273,6 +277,9 @@ func (sys *System) Step(name string, choices []uint64) Obs {
 	p.atGate = false
 	p.release <- gateCmd{choices: choices}
 	out := p.await(sys.Timeout)
+	for _, ev := range p.events {
+		obs.Stale = append(obs.Stale, p.staleReads(ev)...)
+	}
 	if out == "" {
 		if len(p.events) != 1 {
 			obs.Outcome = "error:other"
@@ -428,6 +435,28 @@ func (p *Proc) applyCommitted(ev trace.Event) {
 			}
 		}
 	}
+}
+
+// staleReads compares every read of a known local (whole-variable reads that precede any write of the
+// same attempt) with the tracked committed value.
+func (p *Proc) staleReads(ev trace.Event) []string {
+	var out []string
+	written := map[string]bool{}
+	for _, e := range ev.Elements {
+		switch e := e.(type) {
+		case trace.ReadElement:
+			n := elemName(e.Prefix, e.Name)
+			if p.refParams[n] || written[n] || len(e.Indices) != 0 {
+				continue
+			}
+			if cur, known := p.locals[n]; known && !cur.Equal(e.Value.StripVClock()) {
+				out = append(out, fmt.Sprintf("%s read %s = %s, committed value is %s", p.Name, n, EncText(e.Value), EncText(cur)))
+			}
+		case trace.WriteElement:
+			written[elemName(e.Prefix, e.Name)] = true
+		}
+	}
+	return out
 }
 
 func (p *Proc) setLocal(n string, v tla.Value) {
